@@ -156,13 +156,14 @@ class Driver:
                  ("remove_bond", 2), ("set_atom_attr", 3), ("del_atom_attr", 1.5), ("set_bond_attr", 3),
                  ("del_bond_attr", 1.5), ("relabel_inplace", 1.0),
                  ("has_atom", .5), ("has_bond", .5), ("n_atoms", .2), ("get_atom_type", .7), ("get_atom_attr", .7),
-                 ("get_bond_attr", .7), ("bonded_to", .7), ("component_of", .5), ("eq_self", .3), ("eq_copy", .3),
+                 ("get_bond_attr", .7), ("bonded_to", .7), ("component_of", .5), ("n_components", .3), ("eq_self", .3), ("eq_copy", .3),
                  ("hash", .3), ("str", .2), ("to_json", .2),
                  ("copy", .5), ("copy_ctor", .6), ("relabel_copy", .8), ("subgraph", 1.0), ("compose", .8),
                  ("compose_components", .4), ("json_roundtrip", .4)]
         if roles:
             table += [("add_formed_bond", 3), ("add_broken_bond", 3), ("add_fleeting_bond", 2), ("add_bond_badrole", .3), ("add_formed_badrole", .3), ("add_broken_badrole", .2), ("add_fleeting_badrole", .2),
                       ("set_bond_badrole", .3), ("set_bond_role", 1.5), ("del_bond_role", .7), ("reverse", .5),
+                      ("role_bonds", .6), ("active_atoms", .6),
                       ("reactant", .5), ("product", .5)]
         if stereo:
             table += [("set_atom_stereo", 6), ("del_atom_stereo", 1), ("set_bond_stereo", 4), ("del_bond_stereo", .7),
@@ -194,6 +195,10 @@ class Driver:
         if n in ("remove_atom", "has_atom", "get_atom_type", "bonded_to", "component_of", "get_atom_stereo",
                  "del_atom_stereo", "get_atom_stereo_change"):
             return base_op(n, a=self.atom(g))
+        if n == "role_bonds":
+            return base_op(n, ch=r.choice(["formed", "broken", "fleeting"]))
+        if n == "active_atoms":
+            return base_op(n, flag=r.random() < 0.5)
         if n == "add_bond":
             a, b = self.bond_pair(g, 0.05)
             ch = "none"
